@@ -61,6 +61,10 @@ def _config_csv(repo, variant):
         # same frame size as custom_qm, different pixel aspect ratio / frame rate (process-lifetime caches keyed too coarsely)
         d.update(quantization_matrix="3 2 2 1", pixel_aspect_ratio_numer="16", pixel_aspect_ratio_denom="11",
                  frame_rate_numer="25", frame_rate_denom="1")
+    elif variant == "sibling_qm":
+        # identical to custom_qm in everything but the quantisation matrix (per-process memoisation keyed on the
+        # transform and the format only)
+        d.update(quantization_matrix="0 1 1 2")
     elif variant == "sibling_range":
         d.update(luma_offset="16", luma_excursion="219", color_diff_offset="128", color_diff_excursion="224")
     elif variant == "lossless_asym":
@@ -173,8 +177,8 @@ def run(ctx):
         "concurrently (16 processes) in another shuffled order; (D) every command alone in a fresh empty directory (its files must equal its share of the serial run); trees compared byte for byte; write sets checked pairwise "
         "path-disjoint; evaluations = worker command executions + serial runs; distinct non-trivial = distinct commands that wrote >= 1 file")
     # custom_qm first: a configuration with a non-default option exposes shared-object mutation between generators
-    variants = ctx.pick(["custom_qm+sibling_par"],
-                        ["custom_qm+sibling_par+sibling_range", "minimal", "ld_fragments+fields_420", "lossless_asym"])
+    variants = ctx.pick(["custom_qm+sibling_qm+sibling_par"],
+                        ["custom_qm+sibling_qm+sibling_par+sibling_range", "minimal+sibling_qm", "ld_fragments+fields_420", "lossless_asym"])
     work = os.path.join(ctx.workdir, "gen")
     shutil.rmtree(work, ignore_errors=True)
     os.makedirs(work)
